@@ -126,7 +126,11 @@ pub enum CacheMode {
     None,
     Default,
     Tiny,
+    /// a cache that forgets at once (time-to-live 0): every lookup misses, every insert is lost
+    Volatile,
 }
+
+pub const CACHE_MODES: [CacheMode; 4] = [CacheMode::None, CacheMode::Default, CacheMode::Tiny, CacheMode::Volatile];
 
 /// Build or open a core over the world. Outer Err = panic message.
 pub fn build_core(
@@ -154,6 +158,9 @@ pub fn build_core(
                 }
                 CacheMode::Tiny => {
                     b = b.node_cache_options(hypercore::CacheOptionsBuilder::new().max_capacity(200));
+                }
+                CacheMode::Volatile => {
+                    b = b.node_cache_options(hypercore::CacheOptionsBuilder::new().time_to_live(std::time::Duration::ZERO).max_capacity(400));
                 }
             }
         }
